@@ -23,7 +23,7 @@ func init() {
 type c11Case struct {
 	Window int    `json:"window"`
 	Type   string `json:"type"`            // "" EVENT VOD
-	Style  string `json:"style"`           // rel abs query range range0 rangemix refs skipadv endfirst dirs
+	Style  string `json:"style"`           // rel abs query range range0 rangemix refs skipadv endfirst blockadv dirs
 	Start  int    `json:"start"`           // media sequence number of the first playlist
 	Events []int  `json:"events"`          // between polls: advance by k (0,1,2,3,6) or -1 = append ENDLIST
 	Audio  []int  `json:"audio,omitempty"` // a second, independently evolving rendition (multivariant entry point)
@@ -152,6 +152,11 @@ func c11Playlist(cs c11Case, st c11State, audio bool) string {
 		segs = append(segs, plSeg{URI: uri, DurNS: 1_000_000_000, ByteRange: br})
 	}
 	var extra []string
+	if cs.Style == "blockadv" {
+		// blocking reloads are advertised but there is no preload hint (the hint is optional; a finished Low-Latency
+		// stream looks like this): the client plays the playlist the traditional way
+		extra = append(extra, "#EXT-X-SERVER-CONTROL:CAN-BLOCK-RELOAD=YES,PART-HOLD-BACK=3.00000", "#EXT-X-PART-INF:PART-TARGET=1.00000")
+	}
 	if cs.Style == "skipadv" {
 		// Playlist Delta Updates are advertised although the stream is not a Low-Latency one (no CAN-BLOCK-RELOAD, no
 		// preload hint): a client in traditional mode does not ask for them
@@ -480,7 +485,7 @@ func c11Groups(tier string) []c11Group {
 	var out []c11Group
 	for _, w := range []int{1, 2, 3, 4, 6, 10} {
 		for _, typ := range []string{"", "EVENT", "VOD"} {
-			for _, style := range []string{"rel", "abs", "query", "range", "range0", "rangemix", "refs", "skipadv", "endfirst"} {
+			for _, style := range []string{"rel", "abs", "query", "range", "range0", "rangemix", "refs", "skipadv", "endfirst", "blockadv"} {
 				if tier != "thorough" && style != "rel" && !(w == 4 || w == 6) {
 					continue
 				}
